@@ -384,12 +384,17 @@ func c11GraphCases(r *Run, id *int) []c11Case {
 		{"f0.vuego": "---\nlayout: f0\n---\n<p>x</p>"},
 		{"f0.vuego": "---\nlayout: a\n---\n<p>x</p>", "layouts/a.vuego": `<div v-html="content"></div><template include="f0.vuego"></template>`},
 		{"f0.vuego": `<template include="f1.vuego" v-for="x in vs"></template>`, "f1.vuego": `<template include="f0.vuego"></template>`},
+		// a named slot handed to a layout whose content uses the slot of the same name
+		{"f0.vuego": "---\nlayout: base\n---\n<p>x</p><template #side><i>x</i><slot name=\"side\"></slot></template>", "layouts/base.vuego": `<main v-html="content"></main><aside><slot name="side">none</slot></aside>`},
+		{"f0.vuego": "---\nlayout: base\n---\n<p>x</p><template #side><slot name=\"side\">fb</slot></template>", "layouts/base.vuego": `<aside><slot name="side"></slot><slot name="side"></slot></aside><main v-html="content"></main>`},
 		{"f0.vuego": `<template include="f1.vuego"><template #a><template include="f1.vuego"><template #a>deep</template></template></template></template>`, "f1.vuego": `<div><slot name="a"></slot><slot name="a"></slot></div>`},
 		{"f0.vuego": `<template include="f1.vuego"><i>s</i></template>`, "f1.vuego": `<template include="f2.vuego"><slot></slot><slot></slot></template>`, "f2.vuego": `<u><slot></slot><slot></slot></u>`},
 	}
 	// one supplied slot used several times (the evaluated DOM must stay a tree for the serialiser to terminate)
 	contents := []string{`plain text`, `<b>el</b>`, `<template v-html="v"></template>`, `<template v-if="yes"><i>c</i></template>`, `<template v-for="x in one"><i>{{ x }}</i></template>`,
-		`<template><u>w</u></template>`, `<template include="leaf.vuego"></template>`, `<template v-html="v"></template><template v-html="v"></template>`, `t<template v-html="v"></template>t`, `<p v-html="v"></p>`, `<template v-text="v"></template>`}
+		`<template><u>w</u></template>`, `<template include="leaf.vuego"></template>`, `<template v-html="v"></template><template v-html="v"></template>`, `t<template v-html="v"></template>t`, `<p v-html="v"></p>`, `<template v-text="v"></template>`,
+		// a slot of the same name inside the supplied content (it has nothing to be filled with: its fallback shows)
+		`<b>H</b><slotSAME><i>inner</i></slot>`, `<slotSAME></slot>`, `<div><slotSAME>fb</slot><slotSAME>fb</slot></div>`}
 	uses := []string{`<slot%s></slot>`, `<slot%s></slot><slot%s></slot>`, `<div><slot%s></slot><hr><slot%s></slot></div>`, `<header><slot%s></slot></header><footer><slot%s></slot></footer>`,
 		`<ul><li v-for="i in one"><slot%s></slot><slot%s></slot></li></ul>`, `<slot%s></slot><slot%s></slot><slot%s></slot>`}
 	for ci, content := range contents {
@@ -400,6 +405,7 @@ func c11GraphCases(r *Run, id *int) []c11Case {
 					attr, open, close_ = ` name="cap"`, `<template #cap>`, `</template>`
 				}
 				comp := strings.ReplaceAll(use, "%s", attr)
+				content := strings.ReplaceAll(content, "<slotSAME", "<slot"+attr)
 				files := map[string]string{
 					"f0.vuego":   `<template include="comp.vuego">` + open + content + close_ + `</template>`,
 					"comp.vuego": `<figure>` + comp + `</figure>`,
@@ -514,7 +520,7 @@ func c11ByteCases(r *Run, id *int) []c11Case {
 	var cases []c11Case
 	n := 400
 	if r.Thorough() {
-		n = 6000
+		n = 30000
 	}
 	for i := 0; i < n; i++ {
 		var s string
